@@ -380,6 +380,10 @@ pub struct Scenario {
     /// the client keeps the channel open this long (us) after its last burst (C18)
     #[serde(default)]
     pub client_grace_us: u64,
+    /// C20, streaming jobs: after its scripted bursts the client keeps feeding one element every
+    /// 2 ms until some host's `execute_blocking` has failed (or it gives up)
+    #[serde(default)]
+    pub stream_until_failure: bool,
 }
 
 impl Scenario {
